@@ -44,6 +44,7 @@ theorem InvF.reach {cfg : Cfg} {s : State} (h : Reach cfg s) : InvF s :=
 set_option maxHeartbeats 4000000 in
 theorem triggered_step {cfg : Cfg} {s s' : State} {l : Label} (ht : Triggered s)
     (h : step cfg s l = some s') : Triggered s' := by
+  have hm : (markFail s).isSome = true := by cases h' : s.tFail <;> simp [markFail, h']
   unfold Triggered at ht ⊢
   simp only [anyRootEnded_iff] at ht ⊢
   cases l <;> simp only [step] at h
